@@ -39,6 +39,7 @@ func (ps *pubsub) Emit(key string) {
 	ps.mu.Unlock()
 	for _, cancel := range funcs {
 		cancel()
+		verifhook.Yield("signal@tar/pubsub.go:37")
 	}
 }
 
